@@ -1,6 +1,6 @@
 (* C12 — validation: what is rejected on row insertion, what MetadataSchema() refuses. *)
 From Coq Require Import List ZArith Bool Lia.
-From TskVerif Require Import Base.Common C12.Model C12.BytesProofs C12.Unfold.
+From TskVerif Require Import Base.Common Gen.Generated C12.Model C12.BytesProofs C12.Unfold.
 Import ListNotations.
 Open Scope Z_scope.
 
@@ -116,6 +116,7 @@ Theorem construct_accept_top_rules t req ps :
     (key_in (pkey p) req = true \/ p_default (snd (fst p)) <> None).
 Proof.
   unfold construct. intros Hc Hs p Hin. rewrite Hs in Hc.
+  destruct (negb c12_pascal_zero_allowed && has_pas0 (SObj (Some req) ps)); [discriminate|].
   destruct (existsb (fun p : prop => leaf_needs_format (snd p)) ps) eqn:E1; [discriminate|].
   destruct (existsb (fun p : prop => neg_length (snd p)) ps) eqn:E2; [discriminate|].
   destruct (existsb (fun p : prop => negb (key_in (pkey p) req) &&
@@ -171,10 +172,11 @@ Definition subst_schema : top :=
                     ([98], {| p_index := 0; p_default := None |}, SLeaf TInteger (Some (BInt Ii)) false)])] |}.
 
 Theorem nested_keyerror_substitutes_default_refuted :
+  c12_encode_swallows_nested_keyerror = true ->      (* as long as metadata.py has the try/except *)
   let v := VObj [([111], VObj [([98], VInt 1)])] in
   construct subst_schema = CAccept /\
   valid_top (modify_top subst_schema) v = true /\
   validate_and_encode round32_impl (modify_top subst_schema) v = EOk [5; 0; 0; 0; 6; 0; 0; 0] /\
   decode_top widen32_impl 0 (modify_top subst_schema) [5; 0; 0; 0; 6; 0; 0; 0] =
     DOk (VObj [([111], VObj [([97], VInt 5); ([98], VInt 6)])]) [].
-Proof. vm_compute. auto. Qed.
+Proof. intros H. vm_compute in H. first [discriminate H | vm_compute; auto]. Qed.
